@@ -84,6 +84,11 @@ type Scenario struct {
 	Name string
 	// Weight biases how often the worker picks this scenario.
 	Weight int
+	// Loose marks a scenario whose internals contain sources of
+	// nondeterminism the simulator cannot own (net/http select order): it is
+	// exempt from the determinism canary and its replays need only re-hit the
+	// oracle.
+	Loose bool
 	// Fn executes one run.  It must derive everything from r.T.
 	Fn func(r *Run)
 }
